@@ -152,7 +152,14 @@ where
                 // The commit will fail if the generation of the value we set does not match
                 // the generation of the value that was initialized. We do not know which one
                 // is the correct one, so we just retry until we get a match.
-                if expected_generation == actual_generation {
+                if expected_generation == actual_generation
+                    // A write may have published a newer value and invalidated the regions while
+                    // the regional copy was being installed. Its invalidation is then overwritten
+                    // by the installation (`clear()` and the installing store are unordered), so
+                    // we must check again that what we installed is still the latest value -
+                    // otherwise this region would serve the stale copy until the next write.
+                    && self.global_state.latest_value.load().generation == expected_generation
+                {
                     // We are done - the universe did not change during initialization.
                     break;
                 }
